@@ -42,7 +42,7 @@ Fixpoint zd_del (j : ix) (d : zdict) : zdict :=
   end.
 Definition zd_keys (d : zdict) : list ix := map fst d.
 (* size_dict[j]; the default is never used for tables built from a tree *)
-Definition sd_get (j : ix) (sd : zdict) : Z := match zd_get j sd with Some v => v | None => 1 end.
+Definition sd_get (j : ix) (sd : zdict) : Z := zget j sd.
 
 (* dict ix -> set of contraction numbers (self._where) *)
 Definition wdict := list (ix * list nat).
